@@ -259,6 +259,11 @@ class Subprocess:
 
         Availability: Unix
         """
+        if self.returncode is not None:
+            # The exit has already been reported (and the child reaped), so
+            # it will never be seen again; report it to this callback too.
+            ioloop.IOLoop.current().add_callback(callback, self.returncode)
+            return
         self._exit_callback = callback
         Subprocess.initialize()
         Subprocess._waiting[self.pid] = self
